@@ -3,6 +3,7 @@ package props
 import (
 	"context"
 	"fmt"
+	"sort"
 	"strings"
 	"sync"
 	"time"
@@ -415,14 +416,19 @@ func genC16R(env *core.Env, emit func(core.Case)) {
 			// changed: one of them fetches, the others wait for it - and every one of them started after the
 			// expiry, so every one must see the new zone version
 			rs2, _ := ech.NewResolver(srv.URL())
+			clock.mu.Lock()
+			t0 := clock.sec
+			clock.mu.Unlock()
+			var freshOps []core.Op
 			for round := 0; round < 12 && rs2 != nil; round++ {
-				ver := 1 + round%2
+				ver := 1 + round // every round serves its own zone version: an answer names the round it was fetched in
 				srv.Set(c16Zone(ver, 0))
 				if round > 0 && round%3 != 0 {
 					// the entry exists and has expired: every caller reads the clock exactly once (to find
 					// that out) before it competes for the refresh; let them all get that far first
 					clock.arm(workers)
 				}
+				startedAt := t0 + 61*int64(round)
 				start := make(chan struct{})
 				var wg4 sync.WaitGroup
 				for g := 0; g < workers; g++ {
@@ -435,21 +441,33 @@ func genC16R(env *core.Env, emit func(core.Case)) {
 							return
 						}
 						bad := len(res.Address) == 0 || len(res.HTTPS) == 0
+						seen := map[int]bool{}
 						for _, h := range res.HTTPS {
-							if len(h.ECH) > 0 && int(h.ECH[0]) != ver {
-								bad = true
+							if len(h.ECH) > 0 {
+								seen[int(h.ECH[0])] = true
 							}
 						}
 						for _, ip := range res.Address {
-							if v4 := ip.To4(); v4 != nil && int(v4[1]) != ver {
-								bad = true
+							if v4 := ip.To4(); v4 != nil {
+								seen[int(v4[1])] = true
+							} else if len(ip) == 16 {
+								seen[int(ip[1])] = true
 							}
 						}
-						if bad {
-							mu.Lock()
-							w = fmt.Sprintf("round %d: a lookup started after the entry had expired (zone version %d) returned addresses %v and %d HTTPS records of another version", round, ver, res.Address, len(res.HTTPS))
-							mu.Unlock()
+						mu.Lock()
+						for v := range seen {
+							if v != ver {
+								bad = true
+							}
+							// the response this part of the answer came from arrived in round v-1 at the latest at
+							// that round's clock reading; all records of d.example have TTL 60
+							freshOps = append(freshOps, core.Op{Kind: 'S', Line: fmt.Sprintf("cache-fresh %d %d 60", startedAt, t0+61*int64(v-1)),
+								Note: fmt.Sprintf("round %d, %d goroutines: an answer of zone version %d returned to a call started at second %d (C16_concurrent_answer_fresh)", round, workers, v, startedAt)})
 						}
+						if bad {
+							w = fmt.Sprintf("round %d: a lookup started after the entry had expired (zone version %d) returned addresses %v and %d HTTPS records of another version", round, ver, res.Address, len(res.HTTPS))
+						}
+						mu.Unlock()
 					}()
 				}
 				close(start)
@@ -459,6 +477,10 @@ func genC16R(env *core.Env, emit func(core.Case)) {
 				clock.gateN = 0
 				clock.mu.Unlock()
 			}
+			sort.Slice(freshOps, func(i, j int) bool { return freshOps[i].Line < freshOps[j].Line })
+			emit(core.Case{Name: fmt.Sprintf("concurrent-fresh/%d", workers), Stream: "concurrent-fresh", Key: "concurrent-fresh", Sig: fmt.Sprintf("concurrent-fresh/%d", workers),
+				Ops: freshOps, Sample: map[string]any{"goroutines": workers, "answers": len(freshOps)}})
+			env.Count("concurrent-fresh")
 			srv.Set(c16Zone(1, 0))
 			ech.VerifSetClock(nil)
 		}
